@@ -144,6 +144,49 @@ class Tree:
         self._normalise_bodies()
         if not os.environ.get("VERIF_NO_CANON2"):
             self._canonical_locals("local_names_norm.json")
+            self._resolve_moved()
+
+    def _resolve_moved(self):
+        """A pinned function (or nested function / method of a nested class) that is gone under its name but lives on, body unchanged, under
+        another name or nesting level (nested function turned into a method, local class moved to module level) is aliased to its old key"""
+        import json
+
+        spec = Path(__file__).resolve().parent.parent / "spec" / "func_skeletons.json"
+        if not spec.exists():
+            return
+        pinned = json.loads(spec.read_text())
+        missing = [k for k in pinned if k not in self.funcs]
+        if not missing:
+            return
+        new = {k: f for k, f in self.funcs.items() if k not in pinned and not f.module.is_test()}
+        self.moved: List[str] = []
+        taken = set()
+        for k in missing:
+            mod = k.split(":", 1)[0]
+            leaf = k.rsplit(".", 1)[-1].split(":")[-1].lstrip("_")
+            best, score = None, 0.0
+            for nk, f in new.items():
+                if nk in taken or nk.split(":", 1)[0] != mod:
+                    continue
+                same_leaf = f.node.name.lstrip("_") == leaf
+                parts_old = k.split(":", 1)[1].split(".")
+                parts_new = nk.split(":", 1)[1].split(".")
+                same_cls = len(parts_old) > 1 and len(parts_new) > 1 and parts_old[-2].lstrip("_") == parts_new[-2].lstrip("_")
+                if len(pinned[k]) < 4 and not (same_leaf and same_cls):
+                    continue  # too small to be recognised by its body alone
+                sc = skeleton_similarity(pinned[k], skeleton_tokens(f.node))
+                # the leaf name usually survives (awaitcompletion -> _awaitcompletion, Sealer.preprocess -> _Sealer.preprocess)
+                if same_leaf:
+                    sc += 0.15
+                if sc > score:
+                    best, score = nk, sc
+            if best is not None and score >= 0.8:
+                taken.add(best)
+                f = self.funcs.pop(best)
+                f.written_qual = f.qual
+                f.qual = k.split(":", 1)[1]  # the function answers to its pinned key (rules, tables of legitimate sites)
+                self.funcs[k] = f
+                self.moved.append(f"{k} -> {best} ({score:.2f})")
 
     def _normalise_bodies(self):
         from .normalise import inline_aliases, loops_to_comprehensions, positive_ifexps, unroll_literal_loops, updates_to_loops, inline_single_use_temps, forward_attr_stores, searches_to_loops, genexp_loops, split_webs
@@ -240,6 +283,14 @@ class Tree:
                         continue
                 self._rename_two_pass(f.node, mapping)
                 self.renamed.append(f"{key}: locals {mapping}")
+        cspec = spec.with_name(table.replace("local_names", "scoped_names"))
+        if cspec.exists():
+            for key, want in json.loads(cspec.read_text()).items():
+                f = self.funcs.get(key)
+                if f is not None:
+                    r = rename_scoped(f.node, want)
+                    if r:
+                        self.renamed.append(f"{key}: scoped {r}")
 
     def _rename_two_pass(self, fn, mapping):
         # a swap of two names cannot be done in one pass without capture: go through temporaries
@@ -599,3 +650,95 @@ def match_locals(have, want) -> dict:
                     consumed.add(i)
                 progress = True
     return mapping
+
+
+COMP_TYPES = (ast.ListComp, ast.SetComp, ast.DictComp, ast.GeneratorExp)
+
+
+def scoped_names(fn) -> list:
+    """Comprehensions and lambdas of a function (not of nested defs) in source order:
+    [kind, [target names per generator] | [parameter names], signature] -- the signature is the source with the bound names blanked"""
+    out = []
+
+    def blank(node, names):
+        c = ast.parse(ast.unparse(node), mode="eval").body
+        for n in ast.walk(c):
+            if isinstance(n, ast.Name) and n.id in names:
+                n.id = "§"
+            elif isinstance(n, ast.arg) and n.arg in names:
+                n.arg = "§"
+        return ast.unparse(c)
+
+    def visit(node):
+        for child in ast.iter_child_nodes(node):
+            if isinstance(child, FUNC_TYPES + (ast.ClassDef,)):
+                continue
+            if isinstance(child, COMP_TYPES):
+                names = [[n.id for n in ast.walk(g.target) if isinstance(n, ast.Name)] for g in child.generators]
+                flat = {x for g in names for x in g}
+                out.append([type(child).__name__, names, blank(child, flat), child])
+            elif isinstance(child, ast.Lambda):
+                names = [a.arg for a in child.args.posonlyargs + child.args.args + child.args.kwonlyargs]
+                out.append(["Lambda", [names], blank(child, set(names)), child])
+            visit(child)
+
+    visit(fn)
+    return out
+
+
+def rename_scoped(fn, want) -> list:
+    """Rename comprehension / lambda variables back to the pinned ones when the construct is the same up to those names"""
+    have = scoped_names(fn)
+    done = []
+    used = set()
+    for kind, names, sig, node in have:
+        for i, w in enumerate(want):
+            if i in used or w[0] != kind or w[2] != sig:
+                continue
+            used.add(i)
+            old = [x for g in names for x in g]
+            new = [x for g in w[1] for x in g]
+            if old == new or len(old) != len(new) or len(set(new)) != len(new):
+                break
+            mapping = dict(zip(old, new))
+            free = {n.id for n in ast.walk(node) if isinstance(n, ast.Name)} - set(old)
+            if set(mapping.values()) & free:
+                break
+            tmp = {k: f"__sc_{j}" for j, k in enumerate(mapping)}
+            for mp in (tmp, {tmp[k]: v for k, v in mapping.items()}):
+                for n in ast.walk(node):
+                    if isinstance(n, ast.Name) and n.id in mp:
+                        n.id = mp[n.id]
+                    elif isinstance(n, ast.arg) and n.arg in mp and isinstance(node, ast.Lambda):
+                        n.arg = mp[n.arg]
+            done.append(mapping)
+            break
+    return done
+
+
+def skeleton_tokens(fn) -> list:
+    """What a function does, independent of names and layout: statement kinds, attribute names, called names, small constants"""
+    out = []
+    body = [s for s in fn.body if not (isinstance(s, ast.Expr) and isinstance(s.value, ast.Constant) and isinstance(s.value.value, str))]
+    for s in body:
+        for n in ast.walk(s):
+            if isinstance(n, ast.stmt):
+                out.append("S:" + type(n).__name__)
+            elif isinstance(n, ast.Attribute):
+                out.append("A:" + n.attr)
+            elif isinstance(n, ast.Call) and isinstance(n.func, ast.Name):
+                out.append("C:" + n.func.id)
+            elif isinstance(n, ast.Constant) and isinstance(n.value, (int, bool)) or isinstance(n, ast.Constant) and n.value is None:
+                out.append("K:" + repr(n.value))
+            elif isinstance(n, (ast.Compare,)):
+                out.append("O:" + "".join(type(o).__name__ for o in n.ops))
+    return out
+
+
+def skeleton_similarity(a: list, b: list) -> float:
+    from collections import Counter
+
+    ca, cb = Counter(a), Counter(b)
+    inter = sum((ca & cb).values())
+    union = sum((ca | cb).values())
+    return inter / union if union else 1.0
